@@ -18,6 +18,7 @@ RULE = (
     "combinations, scalar and vector); current_loop_vector_potential on generated radii/centres/points vs quadrature; convert_field round trips; "
     "cdist vs numpy; Solution.field_at_position / vector_potential_at_position on short generated solutions (static and time-dependent applied "
     "potential, any recorded step, optionally preceded by another evaluation on the same Solution at the same (x, y) and a different height or at other points); non-trivial = >= 10 current elements and >= 3 evaluation points with |B| above 1e-3 of its maximum; distinct by spec hash"
+    "; solution cases in um/nm x uA/nA/mA/A with weak drives; scans with a prime number (> 2^22 / sites) of positions in one call"
 )
 ASSUMPTIONS = [
     "mu_0 from scipy.constants; lengths/currents converted by an explicit table",
